@@ -109,7 +109,13 @@ def run(ctx):
         x, y = np.array(p["x"]), np.array(p["y"]); seed = ctx.rng.randint(0, 10**9)
         if all(float(v).is_integer() for v in p["x"] + p["y"]) and ctx.rng.random() < 0.4:
             # counts / ranks stored as integers, shifted by a fraction: nothing may be truncated back to the integer type
-            x, y = x.astype(np.int64), y.astype(np.int64); p["shift"] = ctx.rng.choice([0.5, -1.5, 2.75, 0.25]); ctx.count("integer-data-fractional-shift")
+            if ctx.rng.random() < 0.5:
+                x, y = x.astype(np.int64), y.astype(np.int64); p["shift"] = ctx.rng.choice([0.5, -1.5, 2.75, 0.25]); ctx.count("integer-data-fractional-shift")
+            elif all(0 <= v <= 100 for v in p["x"] + p["y"]):
+                # counts held in a narrow / unsigned integer type, shifted by a float with a whole value: x - d and y + d leave the type's
+                # range, so nothing may be computed in that type
+                ndt_ = ctx.rng.choice([np.uint8, np.int8, np.uint16, np.uint32]); x, y = x.astype(ndt_), y.astype(ndt_)
+                p["shift"] = ctx.rng.choice([2.0, -3.0, 200.0, 120.0, -130.0]); ctx.count("narrow-integer-data-whole-float-shift")
         kw = dict(reps=p["reps"], alternative=p["alt"], keep_dist=True, plus1=p["plus1"])
         stat = ctx.rng.choice(["mean", "t", "callable"])
         if stat == "t" and (len(p["x"]) + len(p["y"]) < 4 or len(set(p["x"] + p["y"])) < 3):
